@@ -115,8 +115,15 @@ pub fn connect_and_run_v(w: &mut World, spec: ConnectSpec, connack: &rc::Connack
         connack.server_keep_alive.get_or_insert(30);
         connack.response_information.get_or_insert("resp/info".into());
         connack.assigned_client_id.get_or_insert("assigned-1".into());
-        connack.wildcard_available.get_or_insert(true);
-        connack.shared_available.get_or_insert(true);
+        // capabilities the server lacks: none of them entitles the client to alter or refuse what
+        // the caller asked for (the listed properties are literal about that)
+        connack.wildcard_available.get_or_insert(variant & 1 == 0);
+        connack.shared_available.get_or_insert(variant & 1 == 0);
+        if variant & 1 != 0 {
+            connack.retain_available.get_or_insert(false);
+            connack.maximum_qos.get_or_insert(((variant >> 2) & 1) as u8);
+            connack.topic_alias_maximum = Some(0);
+        }
     }
     if variant & 16 != 0 {
         // generous, so that the scripted broker never exceeds what the client asked for
@@ -506,6 +513,7 @@ pub fn feed_packet(w: &mut World, p: &rc::Packet, form: &rc::Form) {
 pub fn tagged_publish(tag: usize, qos: u8) -> PublishSpec {
     PublishSpec {
         qos: Some(qos),
+        retain: if tag % 3 == 1 { Some(true) } else { None },
         topic: Some(format!("t/{tag}")),
         // every fourth publish is ~50 bytes long: under a small server Maximum Packet Size
         // (18..42 in the histories) it is refused locally, the others are not
